@@ -163,10 +163,15 @@ def assertion(now, aid='A1', issuer=IDP_A, subject='alice', name_format=NF_TRANS
                au, ast))
 
 
+def version_attr(version):
+    """None = the (required) Version attribute is left out altogether"""
+    return '' if version is None else ' Version="%s"' % esca(version)
+
+
 def response(now, assertions=(), rid='R1', issuer=IDP_A, irt='req1', dest=ACS_POST, status=STATUS_SUCCESS,
              status2=None, status_msg=None, version='2.0', sign=None, alg='sha256', keyinfo=None, style='Z',
              issue_offset=0, extensions='', has_status=True, root='Response', extra_last='', digalg=None):
-    at = ' ID="%s" Version="%s" IssueInstant="%s"' % (esca(rid), esca(version), ts(now + issue_offset, style))
+    at = ' ID="%s"%s IssueInstant="%s"' % (esca(rid), version_attr(version), ts(now + issue_offset, style))
     if irt is not None:
         at += ' InResponseTo="%s"' % esca(irt)
     if dest is not None:
@@ -282,7 +287,7 @@ REQ_EXTRA_ATTRS = {'AuthzDecisionQuery': ' Resource="https://resource.example/x"
 def request(now, kind='AuthnRequest', rid='Q1', issuer=SP_X, dest=None, version='2.0', issue_offset=0, sign=None,
             alg='sha256', keyinfo=None, acs_url=None, acs_index=None, protocol_binding=None, body=None, style='Z',
             extra_attrs='', extensions='', root=None, et_prefixes=False):
-    at = ' ID="%s" Version="%s" IssueInstant="%s"' % (esca(rid), esca(version), ts(now + issue_offset, style))
+    at = ' ID="%s"%s IssueInstant="%s"' % (esca(rid), version_attr(version), ts(now + issue_offset, style))
     if dest is not None:
         at += ' Destination="%s"' % esca(dest)
     if acs_url is not None:
